@@ -9,17 +9,18 @@ package ramfs
 
 //@ func (*FileEnt).Read
 //@ property C18
-//@ requires ref != nil && NOLOCK(ref) && base(p) != base(ref.Data) && len(ref.Data) + len(p) < 4611686018427387904
+//@ nolockledger
+//@ requires ref != nil && base(p) != base(ref.Data) && len(ref.Data) + len(p) < 4611686018427387904
 //@ let N = len(old(ref.Data))
 //@ ensures in_range: 0 <= offset && offset <= N ==> err == nil && result0 == min(len(p), N - offset) && forall(j, 0, result0, p[j] == old(ref.Data[offset + j]))
 //@ ensures beyond_end: offset > N ==> result0 == 0
 //@ ensures negative: offset < 0 ==> err != nil && result0 == 0
 //@ ensures file_unchanged: ref.Data == old(ref.Data) && forall(j, 0, N, ref.Data[j] == old(ref.Data[j])) && ref.Info == old(ref.Info)
-//@ ensures unlocked: lockcount() == 0 && !held(ref)
 
 //@ func (*FileEnt).Write
 //@ property C18
-//@ requires ref != nil && NOLOCK(ref) && base(p) != base(ref.Data) && len(ref.Data) + len(p) < 4611686018427387904
+//@ nolockledger
+//@ requires ref != nil && base(p) != base(ref.Data) && len(ref.Data) + len(p) < 4611686018427387904
 //@ let N = len(old(ref.Data))
 //@ ensures in_range: 0 <= offset && offset <= N ==> err == nil && result0 == len(p) && len(ref.Data) == max(N, offset + len(p)) && ref.Info.Length == len(ref.Data)
 //@ ensures written_overlap: 0 <= offset && offset <= N ==> forall(j, 0, min(len(p), N - offset), ref.Data[offset + j] == p[j])
@@ -27,28 +28,51 @@ package ramfs
 //@ ensures before_kept: 0 <= offset && offset <= N ==> forall(j, 0, offset, ref.Data[j] == old(ref.Data[j]))
 //@ ensures after_kept: 0 <= offset && offset <= N ==> forall(j, offset + len(p), N, ref.Data[j] == old(ref.Data[j]))
 //@ ensures rejected: offset < 0 || offset > N ==> err != nil && result0 == 0 && ref.Data == old(ref.Data) && forall(j, 0, N, ref.Data[j] == old(ref.Data[j])) && ref.Info == old(ref.Info)
-//@ ensures unlocked: lockcount() == 0 && !held(ref)
 
 //@ func (*FileEnt).unlink_child
 //@ property C18
-//@ requires f != nil && NOLOCK(f)
-//@ ensures missing: f.children == nil || !old(has(f.children, name)) ==> err != nil && (forall k string :: {has(f.children, k)} has(f.children, k) == old(has(f.children, k)))
-//@ ensures removed: f.children != nil && old(has(f.children, name)) ==> err == nil && !has(f.children, name) && (forall k string :: {has(f.children, k)} k != name ==> has(f.children, k) == old(has(f.children, k)) && f.children[k] == old(f.children[k]))
-//@ ensures unlocked: lockcount() == 0 && !held(f)
+//@ nolockledger
+//@ requires f != nil
+//@ ensures missing: f.children == nil || !old(has(f.children, name)) || old(f.children[name]) != c ==> err != nil && (forall k string :: {has(f.children, k)} has(f.children, k) == old(has(f.children, k)) && f.children[k] == old(f.children[k]))
+//@ ensures removed: f.children != nil && old(has(f.children, name)) && old(f.children[name]) == c ==> err == nil && !has(f.children, name) && (forall k string :: {has(f.children, k)} k != name ==> has(f.children, k) == old(has(f.children, k)) && f.children[k] == old(f.children[k]))
 
 //@ func (*FileEnt).link_child
 //@ property C18
-//@ requires f != nil && NOLOCK(f)
+//@ nolockledger
+//@ requires f != nil
 //@ ensures refused: f.children == nil || old(has(f.children, name)) ==> err != nil && (forall k string :: {has(f.children, k)} has(f.children, k) == old(has(f.children, k)) && f.children[k] == old(f.children[k]))
 //@ ensures linked: f.children != nil && !old(has(f.children, name)) ==> err == nil && has(f.children, name) && f.children[name] == c && (forall k string :: {has(f.children, k)} k != name ==> has(f.children, k) == old(has(f.children, k)) && f.children[k] == old(f.children[k]))
-//@ ensures unlocked: lockcount() == 0 && !held(f)
 
 //@ func (*FileEnt).incref
 //@ property C18
-//@ requires f != nil && NOLOCK(f) && f.nref < 9223372036854775807
-//@ ensures f.nref == old(f.nref) + 1 && lockcount() == 0 && !held(f)
+//@ nolockledger
+//@ requires f != nil && f.nref < 9223372036854775807
+//@ ensures f.nref == old(f.nref) + 1
 
 //@ func dropEnt
 //@ property C18
 //@ ensures len(result) <= len(lst) && forall(j, 0, len(result), result[j] != x)
 //@ loop 1 invariant 0 <= i && i <= j && j <= len(lst) && forall(m, 0, i, lst[m] != x)
+
+//@ func (*FileEnt).decref
+//@ property C18
+//@ trusted
+//@ modifies ramfs.FileEnt.nref, ramfs.FileEnt.children, held
+//@ requires f != nil
+
+//@ macro HOK = (h.ent != nil && forall(j, 0, len(h.parents), h.parents[j] != nil))
+
+//@ func (FileHandle).Clunk
+//@ property C18
+//@ nolockledger
+//@ requires HOK
+//@ loop 1 invariant HOK
+
+//@ func (FileHandle).Remove
+//@ property C18
+//@ nolockledger
+//@ requires HOK
+//@ let P = old(h.parents[len(h.parents) - 1])
+//@ let NAME = old(h.ent.Info.Name)
+//@ ensures root: len(h.parents) == 0 ==> err != nil
+//@ ensures removes_own_link_only: len(h.parents) > 0 && old(P.children) != nil && old(has(P.children, NAME)) && old(P.children[NAME]) != h.ent ==> has(old(P.children), NAME) && old(P.children)[NAME] == old(P.children[NAME])
